@@ -257,6 +257,17 @@ def a_orderbook(draw, cx, name, node=None, n_max=6):
             "full_exec": False, "wacc": draw(st.sampled_from([0.0, 0.0, 0.05, 0.4]))}
 
 
+def _vary_fuel_efficiency(draw, cx, a):
+    """fuel efficiency as interval data (documented form float / dict / str): it is the dispatch factor of the fuel
+    rows, so it differs between the steps - and between the intervals of a split build"""
+    if draw(st.integers(0, 3)) == 0:
+        T = cx.g["T"]
+        cut = draw(st.integers(1, max(1, T - 1)))
+        e1 = a["fuel_efficiency"]
+        e2 = draw(st.sampled_from([x for x in (1.0, 0.5, 0.75, 0.25) if x != e1]))
+        a["fuel_efficiency"] = {"iv": [[-50, cut, e1], [cut, T + 50, e2]]}
+
+
 def a_plant(draw, cx, name, fuel=None):
     """a simple MIP plant (the detailed unit-commitment space is C06's)"""
     node = draw(st.sampled_from(cx.nodes))
@@ -277,6 +288,7 @@ def a_plant(draw, cx, name, fuel=None):
         a["fuel_efficiency"] = draw(st.sampled_from([1.0, 0.5, 0.75]))
         a["consumption_if_on"] = draw(st.sampled_from([0.0, 0.25])) / cx.dt0
         a["start_fuel"] = draw(st.sampled_from([0.0, 1.0]))
+        _vary_fuel_efficiency(draw, cx, a)
     return a
 
 
@@ -407,6 +419,7 @@ def a_chp(draw, cx, name):
         a["fuel_efficiency"] = draw(st.sampled_from([1.0, 0.5, 0.75]))
         a["consumption_if_on"] = draw(st.sampled_from([0.0, 0.25])) / cx.dt0
         a["start_fuel"] = draw(st.sampled_from([0.0, 1.0]))
+        _vary_fuel_efficiency(draw, cx, a)
     return a
 
 
@@ -451,7 +464,7 @@ def draw_any(draw, cx, cls, name):
     if cls == "chp":
         return a_chp(draw, cx, name)
     if cls in ("coarse", "periodic"):
-        base = draw(st.sampled_from(["simple", "simple", "storage", "transport", "contract", "multi"]))
+        base = draw(st.sampled_from(["simple", "simple", "storage", "transport", "contract", "multi", "storage_mip"]))
         a = draw_asset(draw, cx, base, name)
         for k in ("min_cap", "max_cap", "extra_costs"):
             if isinstance(a.get(k), dict):   # scalar limits on merged variables
